@@ -18,6 +18,9 @@ CLAIMED = {
     'C11': ('4 C11', 'TLC model checking that the constructive regrouping (stable sort by keys + runs) satisfies the relational verdicts (MC_Regroup) + TLC-enumerated tables x key choices replayed through listby/unlist, groupby/ungroup, pivot/unpivot + random tables, every call chain validated by the TLA+ trace specification Trace_Regroup',
             'One row per key class with the class values in row order, sizes adding up, unlist = stable sort under the real cmp (sorted, stable, contiguous, same multiset of rows), ungroup = same multiset, pivot cells = aggregate of the matching z values / None, unpivot restoring the unique (x, y, z) rows: all judged by TLC on every observation.',
             'Trusted: TLC, harness/enc.py. Key cells compared with the key equality of C02 (a class shows one representative).'),
+    'C01': ('4 C01', 'TLC model checking of the session state machine spec/Dictable.tla (heap of tables, registers, one action per public call; invariants and action properties) + replay of every TLC behaviour (exhaustive to depth 2, simulated to depth 6/10) into real dictables with the abstract state compared after the history',
+            'Every call sequence TLC explores is executed on real dictable objects; all live tables are projected through column lists, len, shape, iteration, d[i][c] and d[c][i] and must equal the state of the specification, including which registers alias one object; operands of allocating calls and rejected assignments are thereby checked to be unchanged.',
+            'Trusted: TLC, harness/enc.py, the replay adapter in props/c01.py (one public call per action, spellings rotate). Column order is not modelled.'),
 }
 PENDING_REASON = 'check not built yet in this round (planned, see DESIGN.md section 4); not claimed until its specification and conformance harness exist'
 
